@@ -65,7 +65,7 @@ func (req *TimeStampReq) ParseResponse(body []byte) (*pkcs7.ContentInfoSignedDat
 		return nil, fmt.Errorf("pkcs9: unmarshalling response: %w", err)
 	} else if len(rest) != 0 {
 		return nil, errors.New("pkcs9: trailing bytes in response")
-	} else if respmsg.Status.Status > StatusGrantedWithMods {
+	} else if respmsg.Status.Status < StatusGranted || respmsg.Status.Status > StatusGrantedWithMods {
 		return nil, fmt.Errorf("pkcs9: request denied: status=%d failureInfo=%x", respmsg.Status.Status, respmsg.Status.FailInfo.Bytes)
 	}
 	if err := req.SanityCheckToken(&respmsg.TimeStampToken); err != nil {
